@@ -59,6 +59,284 @@ class _Deviation(Exception):
 BISECT_NAMES = ("bisect.bisect_left", "bisect_left", "bisect.bisect_right", "bisect_right", "bisect.bisect", "bisect")
 
 
+# ---------------------------------------------------------------- relational abstract evaluation
+# A sorted list and a probe are abstracted by three counts: cl entries below the probe, ce entries
+# equal to it, cg entries above it, each in {0, 1, 2, 3+}.  bisect_left = cl, bisect_right = cl + ce,
+# len = cl + ce + cg.  Integer values are linear forms over (cl, ce, cg); comparisons are decided by
+# interval reasoning inside one abstract situation, list reads by locating the position in the three
+# segments.  Nothing is executed: the helper's body is interpreted over these forms.
+CLASSES = [(0, 0), (1, 1), (2, 2), (3, None)]      # (lo, hi); hi None = unbounded
+
+
+class Lin:
+    __slots__ = ("c", "k")
+
+    def __init__(self, c=(0, 0, 0), k=0):
+        self.c = tuple(c)
+        self.k = k
+
+    def __add__(self, o):
+        return Lin([a + b for a, b in zip(self.c, o.c)], self.k + o.k)
+
+    def __sub__(self, o):
+        return Lin([a - b for a, b in zip(self.c, o.c)], self.k - o.k)
+
+    def scale(self, m):
+        return Lin([a * m for a in self.c], self.k * m)
+
+    def is_zero(self):
+        return not any(self.c) and self.k == 0
+
+    def text(self):
+        names = ("L", "E", "G")
+        parts = [f"{'' if a == 1 else a}{n_}" for a, n_ in zip(self.c, names) if a]
+        if self.k or not parts:
+            parts.append(str(self.k))
+        return "+".join(parts).replace("+-", "-")
+
+
+L_ = Lin((1, 0, 0))
+R_ = Lin((1, 1, 0))
+N_ = Lin((1, 1, 1))
+
+
+def _bounds2(v: Lin, sit):
+    """(min, max) of the linear form in the situation; None = unbounded."""
+    lo, hi = v.k, v.k
+    lo_inf = hi_inf = False
+    for a, (l, h) in zip(v.c, sit):
+        if a == 0:
+            continue
+        if a > 0:
+            lo += a * l
+            if h is None:
+                hi_inf = True
+            else:
+                hi += a * h
+        else:
+            hi += a * l
+            if h is None:
+                lo_inf = True
+            else:
+                lo += a * h
+    return (None if lo_inf else lo), (None if hi_inf else hi)
+
+
+class _Undet(Exception):
+    pass
+
+
+def _sign(v: Lin, sit) -> int:
+    """-1 / 0 / +1 if the form is negative / zero / positive throughout the situation."""
+    lo, hi = _bounds2(v, sit)
+    if lo is not None and hi is not None and lo == hi == 0:
+        return 0
+    if lo is not None and lo > 0:
+        return 1
+    if hi is not None and hi < 0:
+        return -1
+    raise _Undet()
+
+
+def _cmp(op, a: Lin, b: Lin, sit) -> bool:
+    d = a - b
+    lo, hi = _bounds2(d, sit)
+
+    if isinstance(op, ast.Eq):
+        if lo is not None and hi is not None and lo == hi == 0:
+            return True
+        if (lo is not None and lo > 0) or (hi is not None and hi < 0):
+            return False
+        raise _Undet()
+    if isinstance(op, ast.NotEq):
+        return not _cmp(ast.Eq(), a, b, sit)
+    if isinstance(op, ast.Lt):
+        if hi is not None and hi < 0:
+            return True
+        if lo is not None and lo >= 0:
+            return False
+        raise _Undet()
+    if isinstance(op, ast.LtE):
+        if hi is not None and hi <= 0:
+            return True
+        if lo is not None and lo > 0:
+            return False
+        raise _Undet()
+    if isinstance(op, ast.Gt):
+        return _cmp(ast.Lt(), b, a, sit)
+    if isinstance(op, ast.GtE):
+        return _cmp(ast.LtE(), b, a, sit)
+    raise _Outside("comparison operator outside the normal form")
+
+
+def _segment(pos: Lin, sit) -> str:
+    """'lt' / 'eq' / 'gt' segment of the list position, or IndexError."""
+    if not any(pos.c) and pos.k < 0:
+        pos = pos + N_            # a[-k]
+    if _cmp(ast.Lt(), pos, Lin(), sit) or _cmp(ast.GtE(), pos, N_, sit):
+        raise _IndexErr()
+    if _cmp(ast.Lt(), pos, L_, sit):
+        return "lt"
+    if _cmp(ast.Lt(), pos, R_, sit):
+        return "eq"
+    return "gt"
+
+
+def _rel_eval(f: Func, a: str, x: str, body: List[ast.stmt]):
+    """{situation: result text} of the helper body under the relational abstraction."""
+    def num(e: ast.AST, env, sit) -> Lin:
+        if isinstance(e, ast.Constant) and isinstance(e.value, int) and not isinstance(e.value, bool):
+            return Lin(k=e.value)
+        if isinstance(e, ast.Name) and e.id in env:
+            v = env[e.id]
+            if not isinstance(v, Lin):
+                raise _Outside(f"`{e.id}` is not an integer here")
+            return v
+        if isinstance(e, ast.UnaryOp) and isinstance(e.op, ast.USub):
+            return num(e.operand, env, sit).scale(-1)
+        if isinstance(e, ast.BinOp) and isinstance(e.op, (ast.Add, ast.Sub)):
+            l, r = num(e.left, env, sit), num(e.right, env, sit)
+            return l + r if isinstance(e.op, ast.Add) else l - r
+        if isinstance(e, ast.Call):
+            fn = norm(e.func)
+            if fn == "len" and len(e.args) == 1 and norm(e.args[0]) == a:
+                return N_
+            if fn in BISECT_NAMES:
+                return L_ if fn.endswith("bisect_left") else R_
+        raise _Outside(f"integer expression outside the normal form: {norm(e)}")
+
+    def elem(e: ast.AST, env, sit) -> Optional[str]:
+        if isinstance(e, ast.Subscript) and norm(e.value) == a:
+            return _segment(num(e.slice, env, sit), sit)
+        if norm(e) == x:
+            return "probe"
+        return None
+
+    def cond(e: ast.AST, env, sit, xt) -> bool:
+        if isinstance(e, ast.BoolOp):
+            if isinstance(e.op, ast.And):
+                return all(cond(v, env, sit, xt) for v in e.values)
+            return any(cond(v, env, sit, xt) for v in e.values)
+        if isinstance(e, ast.UnaryOp) and isinstance(e.op, ast.Not):
+            return not cond(e.operand, env, sit, xt)
+        if isinstance(e, ast.Name) and e.id == a:
+            return _cmp(ast.Gt(), N_, Lin(), sit)
+        if isinstance(e, ast.Name) and e.id == x:
+            return xt
+        if isinstance(e, ast.Compare) and len(e.ops) == 1:
+            op, l, r = e.ops[0], e.left, e.comparators[0]
+            if isinstance(op, (ast.Is, ast.IsNot)) and isinstance(r, ast.Constant) and r.value is None:
+                if isinstance(l, ast.Name) and l.id in env:
+                    isnone = env[l.id] is None
+                    return isnone if isinstance(op, ast.Is) else not isnone
+                if norm(l) == x:
+                    return isinstance(op, ast.IsNot)
+            le, re_ = elem(l, env, sit), elem(r, env, sit)
+            if le is not None and re_ is not None and {le, re_} != {"probe"}:
+                # element vs probe (or element vs element): order of the segments
+                rank = {"lt": 0, "eq": 1, "probe": 1, "gt": 2}
+                return _cmp(op, Lin(k=rank[le]), Lin(k=rank[re_]), sit) if le != re_ or le in ("eq", "probe") else _same_seg(op)
+            if le is None and re_ is None:
+                if isinstance(l, ast.Name) and l.id in env and env[l.id] is None or isinstance(r, ast.Name) and r.id in env and env[r.id] is None:
+                    raise _Outside("comparison with a None-valued local")
+                return _cmp(op, num(l, env, sit), num(r, env, sit), sit)
+            if (le == "probe" and isinstance(r, ast.Constant) and r.value == 0) or (re_ == "probe" and isinstance(l, ast.Constant) and l.value == 0):
+                if isinstance(op, ast.Eq):
+                    return not xt
+                if isinstance(op, ast.NotEq):
+                    return xt
+        if isinstance(e, ast.Name) and e.id in env and isinstance(env[e.id], Lin):
+            return _cmp(ast.NotEq(), env[e.id], Lin(), sit)
+        calls_ = [c_ for c_ in ast.walk(e) if isinstance(c_, ast.Call) and norm(c_.func) != "len"
+                  and norm(c_.func) not in BISECT_NAMES]
+        if calls_ and any(isinstance(s_, ast.Subscript) for s_ in ast.walk(e)):
+            raise _Deviation(f"the boundary test `{norm(e)}` hands a list element to `{norm(calls_[0].func)}` instead of "
+                             f"comparing it with the probe exactly: positions whose value is not equal to the probe can be "
+                             f"reported as matches")
+        raise _Outside(f"condition outside the normal form: {norm(e)}")
+
+    def _same_seg(op) -> bool:
+        # two elements of the same strict segment: their order is unknown
+        raise _Undet()
+
+    def value(e: Optional[ast.AST], env, sit, xt):
+        if e is None or (isinstance(e, ast.Constant) and e.value is None):
+            return None
+        if isinstance(e, ast.IfExp):
+            return value(e.body, env, sit, xt) if cond(e.test, env, sit, xt) else value(e.orelse, env, sit, xt)
+        if isinstance(e, ast.Name) and e.id in env and env[e.id] is None:
+            return None
+        if isinstance(e, ast.Call) and isinstance(e.func, ast.Name) and e.func.id in SPEC and e.func.id != f.name \
+                and len(e.args) == 2 and norm(e.args[0]) == a and norm(e.args[1]) == x and not e.keywords:
+            return _spec_value(e.func.id, sit)   # the sibling is judged by its own obligation
+        return num(e, env, sit)
+
+    class _Ret(Exception):
+        def __init__(self, v):
+            self.v = v
+
+    def run(stmts, env, sit, xt):
+        for s in stmts:
+            if isinstance(s, ast.If):
+                run(s.body if cond(s.test, env, sit, xt) else s.orelse, env, sit, xt)
+            elif isinstance(s, ast.Return):
+                raise _Ret(value(s.value, env, sit, xt))
+            elif isinstance(s, (ast.Pass,)) or (isinstance(s, ast.Expr) and isinstance(s.value, ast.Constant)):
+                continue
+            elif isinstance(s, ast.Assign) and len(s.targets) == 1 and isinstance(s.targets[0], ast.Name):
+                env[s.targets[0].id] = value(s.value, env, sit, xt)
+            elif isinstance(s, ast.AnnAssign) and isinstance(s.target, ast.Name) and s.value is not None:
+                env[s.target.id] = value(s.value, env, sit, xt)
+            elif isinstance(s, ast.AugAssign) and isinstance(s.target, ast.Name) and isinstance(s.op, (ast.Add, ast.Sub)):
+                cur = env.get(s.target.id)
+                if not isinstance(cur, Lin):
+                    raise _Outside(f"`{norm(s)}` on a non-integer")
+                d = num(s.value, env, sit)
+                env[s.target.id] = cur + d if isinstance(s.op, ast.Add) else cur - d
+            elif isinstance(s, ast.Raise):
+                raise _Ret("raise")
+            else:
+                raise _Outside(f"statement outside the normal form: {norm(s)}")
+
+    results = {}
+    for sit in itertools.product(CLASSES, repeat=3):
+        outs = []
+        for xt in (True, False):
+            try:
+                run(body, {}, sit, xt)
+                r = None
+            except _Ret as ret:
+                r = ret.v
+            except _IndexErr:
+                r = "IndexError"
+            except _Undet:
+                raise _Outside("a comparison is not decided by the (below, equal, above) counts")
+            outs.append(r)
+        results[sit] = outs
+    return results
+
+
+def _spec_value(name: str, sit):
+    (ll, _), (el, _), (gl, _) = sit
+    if name == "find_eq":
+        return L_ if el >= 1 else None
+    if name == "find_lt":
+        return L_ - Lin(k=1) if ll >= 1 else None
+    if name == "find_le":
+        return R_ - Lin(k=1) if ll + el >= 1 else None
+    if name == "find_gt":
+        return R_ if gl >= 1 else None
+    if name == "find_ge":
+        return L_ if el + gl >= 1 else None
+    raise KeyError(name)
+
+
+def _sit_text(sit) -> str:
+    def c(t):
+        return f"{t[0]}" + ("+" if t[1] is None else "")
+    return f"{c(sit[0])} below, {c(sit[1])} equal, {c(sit[2])} above"
+
+
 def _eval_fn(f: Func, spec_variant: str):
     node = f.node
     params = f.params()
@@ -95,132 +373,7 @@ def _eval_fn(f: Func, spec_variant: str):
             if isinstance(c, ast.Name) and isinstance(c.ctx, ast.Load) and c.id not in local_names \
                     and not hasattr(_b, c.id) and c.id not in imported and c.id not in known_defs:
                 raise _Deviation(f"`{c.id}` is module-level state: the result depends on more than (list, probe)")
-    if deleg and not bis:
-        raise _Outside("delegates to another helper")
-    if len(bis) != 1:
-        raise _Outside(f"{len(bis)} bisect calls")
-    bcall = bis[0]
-    st_b = bcall
-    while not isinstance(st_b, ast.stmt):
-        st_b = st_b._parent
-    if not (isinstance(st_b, ast.Assign) and len(st_b.targets) == 1 and isinstance(st_b.targets[0], ast.Name)
-            and st_b.value is bcall):
-        raise _Outside("bisect result is not bound to a name")
-    ivar = st_b.targets[0].id
-    variant = "left" if norm(bcall.func).endswith("bisect_left") else "right"
-    alias: Dict[str, str] = {}
-    for s_ in walk_local(node):
-        if isinstance(s_, ast.Assign) and len(s_.targets) == 1 and isinstance(s_.targets[0], ast.Name) \
-                and isinstance(s_.value, ast.Call) and norm(s_.value.func) == "len" and len(s_.value.args) == 1 \
-                and norm(s_.value.args[0]) == a:
-            alias[s_.targets[0].id] = "len(a)"
-    rest = body
-
-    class _Ren(ast.NodeTransformer):
-        def visit_Name(self, n: ast.Name) -> ast.AST:
-            if n.id == ivar:
-                return ast.Name(id="i", ctx=n.ctx)
-            if n.id == a:
-                return ast.Name(id="a", ctx=n.ctx)
-            if n.id == x:
-                return ast.Name(id="x", ctx=n.ctx)
-            if n.id in alias:
-                return ast.parse(alias[n.id], mode="eval").body
-            return n
-
-    def canon(e: ast.AST) -> str:
-        return norm(ast.fix_missing_locations(_Ren().visit(clone_expr(e))))
-
-    def atom(e: ast.AST, st) -> object:
-        z, en, m, xt = st
-        t = canon(e)
-        empty = z and en
-        table_bool = {
-            "i": not z, "i > 0": not z, "i != 0": not z, "i >= 1": not z, "0 < i": not z, "0 != i": not z,
-            "i == 0": z, "i < 1": z, "i <= 0": z, "not i": z, "0 == i": z,
-            "i != len(a)": not en, "i < len(a)": not en, "len(a) > i": not en, "len(a) != i": not en,
-            "i == len(a)": en, "i >= len(a)": en, "len(a) == i": en, "len(a) <= i": en,
-            "a": not empty, "len(a)": not empty, "len(a) > 0": not empty, "len(a) != 0": not empty,
-            "not a": empty, "len(a) == 0": empty, "not len(a)": empty,
-            # facts about the probe's own value are independent of the boundary situation
-            "x": xt, "not x": not xt, "x is None": not xt and False, "x is not None": True,
-            "x == 0": not xt, "x != 0": xt,
-        }
-        if t in table_bool:
-            return table_bool[t]
-        if t in ("a[i] == x", "x == a[i]"):
-            if en:
-                raise _IndexErr()
-            return m
-        if t in ("a[i] != x", "x != a[i]"):
-            if en:
-                raise _IndexErr()
-            return not m
-        raise _Outside(f"condition outside the normal form: {norm(e)}")
-
-    def cond(e: ast.AST, st) -> bool:
-        if isinstance(e, ast.BoolOp):
-            if isinstance(e.op, ast.And):
-                for v in e.values:
-                    if not cond(v, st):
-                        return False
-                return True
-            for v in e.values:
-                if cond(v, st):
-                    return True
-            return False
-        if isinstance(e, ast.UnaryOp) and isinstance(e.op, ast.Not):
-            return not cond(e.operand, st)
-        return bool(atom(e, st))
-
-    def value(e: Optional[ast.AST], st) -> str:
-        if e is None or (isinstance(e, ast.Constant) and e.value is None):
-            return "None"
-        if isinstance(e, ast.IfExp):
-            return value(e.body, st) if cond(e.test, st) else value(e.orelse, st)
-        t = canon(e)
-        if t == "i":
-            return "i"
-        if t in ("i - 1", "i-1", "-1 + i"):
-            return "i-1"
-        raise _Outside(f"returned expression outside the normal form: {norm(e)}")
-
-    def run(stmts: List[ast.stmt], st) -> Optional[str]:
-        for s in stmts:
-            if isinstance(s, ast.If):
-                r = run(s.body, st) if cond(s.test, st) else run(s.orelse, st)
-                if r is not None:
-                    return r
-            elif isinstance(s, ast.Return):
-                return value(s.value, st)
-            elif isinstance(s, ast.Pass):
-                continue
-            elif isinstance(s, ast.Expr) and isinstance(s.value, ast.Constant):
-                continue
-            elif s is st_b:
-                continue
-            elif isinstance(s, ast.Assign) and len(s.targets) == 1 and isinstance(s.targets[0], ast.Name) \
-                    and s.targets[0].id in alias:
-                continue
-            else:
-                raise _Outside(f"statement outside the normal form: {norm(s)}")
-        return None
-
-    results = {}
-    for st3 in _states(variant):
-        for xt in (True, False):
-            st = st3 + (xt,)
-            try:
-                r = run(rest, st)
-                r = r if r is not None else "None"
-            except _IndexErr:
-                r = "IndexError"
-            prev = results.get(st3)
-            if prev is None or prev == r:
-                results[st3] = r
-            else:
-                results[st3] = f"{prev} or {r} depending on the probe's truthiness"
-    return variant, results
+    return _rel_eval(f, a, x, body)
 
 
 @rule("C18.R1", ["C18", "C01"], min_instances=5, design="3.18")
@@ -235,26 +388,36 @@ def bisect_recipes(ctx):
         f = ctx.prog.func(name, "C18.R1")
         key = f"{name} | recipe"
         try:
-            got_variant, results = _eval_fn(f, variant)
+            results = _eval_fn(f, variant)
         except _Deviation as ex:
             yield Ob("C18.R1", ["C18", "C01"], key, False, f"{name}: {ex}", f.loc())
             continue
         except _Outside as ex:
             raise AnalysisError("C18.R1", f"{name}: {ex}")
         bad = []
-        if got_variant != variant:
-            # a different bisect variant may still be right if results agree on
-            # its own consistent states AND the variant's states subsume; it never is
-            bad.append(f"uses bisect_{got_variant}, documented boundary needs bisect_{variant}")
-        for st, r in results.items():
-            want = spec(*st)
-            if r != want:
-                z, e, m = st
-                bad.append(f"state(i==0:{z}, i==len:{e}, a[i]==x:{m}) returns {r}, documented {want}")
+        for sit, outs in results.items():
+            want = _spec_value(name, sit)
+            for r in outs:
+                same = r is None and want is None
+                if isinstance(r, Lin) and isinstance(want, Lin):
+                    try:
+                        same = _sign(r - want, sit) == 0
+                    except _Undet:
+                        same = False
+                if not same:
+                    rt = r.text() if isinstance(r, Lin) else str(r)
+                    wt = want.text() if isinstance(want, Lin) else str(want)
+                    msg = f"list with {_sit_text(sit)}: returns {rt}, documented {wt}"
+                    if outs[0] is not outs[1] and not (isinstance(outs[0], Lin) and isinstance(outs[1], Lin)
+                                                       and (outs[0] - outs[1]).is_zero()):
+                        msg += " (depending on the probe's truthiness)"
+                    if msg not in bad:
+                        bad.append(msg)
         n_states = len(results)
         yield Ob("C18.R1", ["C18", "C01"], key, not bad,
-                 f"{name}: " + ("; ".join(bad) if bad else f"conforms on all {n_states} boundary states"),
-                 f.loc(), {"variant": got_variant, "states": {str(k): v for k, v in results.items()}})
+                 f"{name}: " + ("; ".join(bad[:3]) + (f" (+{len(bad) - 3} more situations; L=#below, E=#equal, G=#above)" if len(bad) > 3 else " (L=#below, E=#equal, G=#above)")
+                                if bad else f"conforms on all {n_states} abstract list/probe situations"),
+                 f.loc(), {"situations": n_states})
 
 
 @rule("C18.R2", ["C01", "C18"], min_instances=6, design="3.18")
